@@ -249,3 +249,64 @@ func c06FreshCursor(c *Ctx) {
 		c.R.Unk(rule, name+": seeks", c.P.Pos(fn.Pos()), "no Ceil/Min/Max on c.cursor found")
 	}
 }
+
+// ---- C06.no-omit: pushed key constraints are still re-checked by SQLite -----------------------------
+
+func init() {
+	register(&Rule{Name: "C06.no-omit", Min: 1, Run: c06NoOmit,
+		Doc: "the s3db table never tells SQLite to omit its own check of a pushed-down key constraint"})
+	byProp["C06"] = append(byProp["C06"], "C06.no-omit", "C02.delta")
+	explain["C06"] += " no-omit: the scan window computed by Filter is an over-approximation (a descending seek lands on the first key at or above the bound; of two coinciding bounds the first wins), which is only correct because SQLite re-checks every pushed constraint — so the implementations of xBestIndex that number arguments with the dense counter must not set ConstraintUsage.Omit. delta (shared with C02): an UPDATE records every value it is given."
+}
+
+func c06NoOmit(c *Ctx) {
+	const rule = "C06.no-omit"
+	n := 0
+	for _, en := range an.SqliteEntries(c.P) {
+		if en.Method != "BestIndex" || !an.LibraryPkg(en.PkgRel) {
+			continue
+		}
+		fn := en.Fn
+		// only tables that push comparison constraints down to a range scan: those whose
+		// BestIndex delegates to s3db.(*VirtualTable).BestIndex
+		delegates := false
+		for _, call := range an.Calls(fn) {
+			if an.CalleeIs(call, core.ModPath, "VirtualTable", "BestIndex") {
+				delegates = true
+			}
+		}
+		if !delegates {
+			continue
+		}
+		n++
+		bad := false
+		for _, b := range fn.Blocks {
+			for _, in := range b.Instrs {
+				st, ok := in.(*ssa.Store)
+				if !ok {
+					continue
+				}
+				fa, ok := st.Addr.(*ssa.FieldAddr)
+				if !ok {
+					continue
+				}
+				fv := an.FieldVar(fa.X.Type(), fa.Field)
+				if fv == nil || fv.Name() != "Omit" {
+					continue
+				}
+				if cb, isC := constBool(st.Val); isC && !cb {
+					continue
+				}
+				bad = true
+				c.R.Bad(rule, en.Name()+": constraints stay re-checked", c.P.Pos(st.Pos()),
+					"ConstraintUsage.Omit is set: SQLite stops re-checking the pushed key constraints, but the cursor's window is only an over-approximation (rows just outside a bound are returned for descending scans, max(), coinciding bounds)")
+			}
+		}
+		if !bad {
+			c.R.OK(rule, en.Name()+": constraints stay re-checked", c.P.Pos(fn.Pos()), "Omit is never set for pushed key constraints")
+		}
+	}
+	if n == 0 {
+		c.R.Errorf("no xBestIndex implementation delegating to s3db.(*VirtualTable).BestIndex found")
+	}
+}
